@@ -4,6 +4,7 @@ import (
 	"encoding/json"
 	"fmt"
 	"os"
+	"runtime"
 	"sort"
 	"testing"
 	"time"
@@ -106,7 +107,23 @@ func (w *Worker) Exec(spec RunSpec) RunResult {
 	spec.Property = w.Job.Property
 	spec.Seed = w.Job.Seed
 	spec.Tier = w.Job.Tier
+	t0 := time.Now()
+	var m0 runtime.MemStats
+	if os.Getenv("VERIF_DEBUG") != "" {
+		runtime.ReadMemStats(&m0)
+	}
 	res := Execute(w.t, spec)
+	if os.Getenv("VERIF_DEBUG") != "" {
+		var m1 runtime.MemStats
+		runtime.ReadMemStats(&m1)
+		if d := m1.TotalAlloc - m0.TotalAlloc; d > 200<<20 {
+			debugf("big alloc: %s/%s #%d allocated %d MiB", spec.Property, spec.Scenario, spec.Index, d>>20)
+		}
+	}
+	if d := time.Since(t0); d > 2*time.Second {
+		debugf("slow run: %s/%s #%d params=%v took %v (steps %d)", spec.Property, spec.Scenario, spec.Index, spec.Params, d, res.Steps)
+		w.Out.Counters["slow_runs_over_2s"]++
+	}
 	w.Out.Runs++
 	w.Out.Steps += int64(res.Steps)
 	w.Out.Tasks += int64(res.Tasks)
